@@ -69,6 +69,10 @@ def run(chk):
         stages = quant.peel(inline(repo, mi, f["data"]))
         names = quant.stage_names(stages)
         site = f"{mi.rel}:{p.end[2]}"
+        if "div" not in names and any(isinstance(x, ast.Attribute) and x.attr == "_data" for x in ast.walk(f["data"])):
+            # an alternative route that reuses the codes of an already quantized base: no quotient at all on this path
+            chk.unknown("C16.R1", site, f"SymmetricQuantizer.forward: on the path [{' & '.join(p.cond_texts())[:70]}] the codes of a quantized base are reused (stages {names}): not followed")
+            continue
         sanitised = False
         for i, s in enumerate(stages):
             if s[0] == "nan_to_num":
@@ -145,6 +149,9 @@ def abs_rule(chk):
             site = f"{mi.rel}:{p.end[2]}"
             if not (isinstance(e, ast.BinOp) and isinstance(e.op, ast.Div)):
                 chk.unknown("C16.R5", site, f"{qn}: scale `{U(e)[:60]}` is not range / qmax")
+                continue
+            if scales.alternative_route(p, e.left):
+                chk.unknown("C16.R5", site, f"{qn}: the range `{U(e.left)[:50]}` comes from an alternative route: not followed")
                 continue
             r = scales.reduction(e.left)
             if r is None:
